@@ -25,7 +25,7 @@ Definition chunks (bs : list N) : list chunk := chunks_f (length bs) bs.
 Definition pack (bs : list N) : list chunk := chunks (pad32 bs).
 
 Definition le64 (v : N) : list N :=
-  map (fun k => N.shiftr v (8 * k) mod 256) [0; 1; 2; 3; 4; 5; 6; 7].
+  map (fun k => N.land (N.shiftr v (8 * k)) 255) [0; 1; 2; 3; 4; 5; 6; 7].
 
 Section WithHash.
 Variable H : list N -> list N.
